@@ -33,6 +33,16 @@ def norm(s):
 def prepare(tree, search, replace, what):
     """sandbox brought to the state just before the command under test; returns (sb, args, old, new, plan)"""
     sb = cli.Sandbox(tree)
+    # one of the edited files has a second name outside the tree (a config shared between two checkouts): whatever
+    # happens to the file happens to that name too, and an in-place rewrite would show as a truncated file after a kill
+    try:
+        import os
+        shared = sb.dir / "shared_outside"
+        shared.mkdir(exist_ok=True)
+        if (sb.root / "plain.txt").exists() and not (shared / "plain.txt").exists():
+            os.link(sb.root / "plain.txt", shared / "plain.txt")
+    except OSError:
+        pass
     if what == "apply":
         rc, o, e = sb.run(["--no-auto-init", "plan", search, replace, "--quiet"])
         if rc != 0:
